@@ -53,9 +53,8 @@ STAGES = {"candidates": (obs_cands, "CandTrace"), "rule-rows": (obs_rows, "Rules
 
 
 def make_cases(ctx, rnd):
-    texts = [(t, ts) for t, ts in corpus_texts()]
-    if ctx.quick:
-        texts = texts[ctx.seed % 3::3]
+    from .c15 import corpus_sample
+    texts = list(corpus_sample(ctx.quick, ctx.seed, 3))
     hazards = ["31.04.2020", "31.04.", "29.2.", "30.2.2019", "31. april", "29. feb 2019", "28.2.2019 - 30", "29.2. - 5.3.2019",
                "early early early early morning", "very early early late morning", "23:30-3:35", "9-5", "12:35-0:30", "12am", "0:00 - 0:00",
                "tomorrow 23:30 - 3:35", "31.12.2019 23:59 for 2 minutes", "31.1.2020 for 1 month", "29.2.2020 for 12 months",
@@ -74,8 +73,21 @@ def make_cases(ctx, rnd):
             for b in clocks:
                 pr += ["%s 1.1.2020 %s - 1.1.2020 %s" % (pw, a, b), "%s tomorrow %s - %s" % (pw, a, b), "%s %s - %s" % (pw, a, b),
                        "%s 1.1.2020 %s - 2.1.2020 %s" % (pw, a, b), "1.1.2020 %s %s - %s" % (pw, a, b)]
+    # ... and of the "range" family: no part of day, from/between, a trailing date, a trailing duration
+    for a in clocks:
+        for b in clocks:
+            pr += ["%s - %s 1.1.2020" % (a, b), "from %s to %s tomorrow" % (a, b), "1.1.2020 %s - %s for 2 hours" % (a, b), "%s - %s 90 minutes" % (a, b),
+                   "1.1.2020 %s - 2.1.2020 %s" % (a, b), "between %s and %s" % (a, b), "tomorrow %s - 1.1.2020 %s" % (a, b)]
+    # <day> <part of day> for <duration>: the end is computed from the start of the part of day
+    pd = []
+    for pw in ("evening", "abends", "morning", "nachmittags", "night", "noon", "late evening", "early morning"):
+        for dw in ("tomorrow", "1.1.2020", "friday", "31.12.2019"):
+            for du in ("for 2 hours", "for 90 minutes", "for 1 day", "für 3 stunden", "for 20 hours", "for 2 nights"):
+                pd += ["%s %s %s" % (dw, pw, du), "%s %s %s" % (pw, dw, du)]
+    rnd.shuffle(pd)
+    texts += [(t, (2018, 3, 7, 12, 43)) for t in pd[:60 if ctx.quick else len(pd)]]
     rnd.shuffle(pr)
-    texts += [(t, (2018, 3, 7, 12, 43)) for t in pr[:200 if ctx.quick else 2560]]
+    texts += [(t, (2018, 3, 7, 12, 43)) for t in pr[:260 if ctx.quick else 3100]]
     tss = [(2018, 3, 7, 12, 43), (2020, 2, 29, 23, 59), (2019, 1, 31, 0, 0), (2018, 12, 31, 12, 0), (2023, 11, 5, 20, 30),
            (2100, 2, 27, 10, 0), (2000, 2, 28, 10, 0)]
     for t in G.soups(rnd, 400 if ctx.quick else 4000):
@@ -97,7 +109,7 @@ def run(ctx):
                      "implementation: (text x reference time x latent on/off x depth) runs, every streamed candidate judged; distinct = distinct run")
     ctx.assumptions += ["texts: bundled corpus + hazard list + random sequences of lexemes of every pattern (rendering of Derive's alphabet)",
                         "the span is measured against the normalised text with labels removed (what the engine matches on)"]
-    for fam in ("date", "clock", "dur", "pod", "podrange"):
+    for fam in ("date", "clock", "dur", "pod", "podrange", "range"):
         ctx.mc("Derive", "MC_Derive_%s_%s.cfg" % (fam, "q" if ctx.quick else "t"), timeout=3000, heap="8g")
     cases = make_cases(ctx, rnd)
     core.run_stage(ctx, "candidates", cases, obs_cands, "CandTrace", sig_keys=("form",),
